@@ -1,12 +1,418 @@
-//! C02 - not built yet.
-use crate::run::Ctx;
-use serde_json::Value;
+//! C02 - every returned value is in range; out-of-range results are RangeErrors; the boundary is exact.
+//! Boundary-focused runs of the exact-oracle sub-checks (C04-C07, C09) plus a grid of constructors,
+//! conversions and parsers at every limit; executed in the `checked` and in the `release` profile.
 
-pub fn run(_ctx: &mut Ctx) {
-    eprintln!("property C02 has no check yet");
-    std::process::exit(2);
+use crate::chk;
+use crate::conv::*;
+use crate::gen;
+use crate::props::{c04, c05, c06, c07, c09};
+use crate::refm::civil::*;
+use crate::refm::dateadd::*;
+use crate::refm::dur::{Dur, U};
+use crate::refm::fmt::{self, Prec};
+use crate::run::*;
+use crate::tzp::TableProvider;
+use proptest::prelude::*;
+use serde::{Deserialize, Serialize};
+use serde_json::Value;
+use std::str::FromStr;
+use temporal_rs::error::ErrorKind;
+use temporal_rs::options::{ArithmeticOverflow, Disambiguation};
+use temporal_rs::{Instant, PlainDate, PlainDateTime, PlainYearMonth, TimeZone, ZonedDateTime};
+
+const DAY: i128 = NS_PER_DAY;
+
+// ------------------------------------------------------------------------------------------
+// limits grid
+
+#[derive(Serialize, Deserialize, Debug, Clone, Copy, PartialEq, Eq)]
+pub enum LOp {
+    DateTryNew,
+    DateNew,
+    DateTimeTryNew,
+    DateToDateTime,
+    FromDateAndTime,
+    YearMonthNew,
+    DateToYearMonth,
+    InstantTryNew,
+    InstantFromMs,
+    ZonedTryNew,
+    DateToZoned,
+    DateTimeToZoned,
+    DateFromStr,
+    DateTimeFromStr,
+    InstantFromStr,
+    YearMonthFromStr,
+    ZonedFromStr,
+}
+pub const LOPS: [LOp; 17] = [
+    LOp::DateTryNew,
+    LOp::DateNew,
+    LOp::DateTimeTryNew,
+    LOp::DateToDateTime,
+    LOp::FromDateAndTime,
+    LOp::YearMonthNew,
+    LOp::DateToYearMonth,
+    LOp::InstantTryNew,
+    LOp::InstantFromMs,
+    LOp::ZonedTryNew,
+    LOp::DateToZoned,
+    LOp::DateTimeToZoned,
+    LOp::DateFromStr,
+    LOp::DateTimeFromStr,
+    LOp::InstantFromStr,
+    LOp::YearMonthFromStr,
+    LOp::ZonedFromStr,
+];
+
+#[derive(Serialize, Deserialize, Debug, Clone)]
+pub struct LimitCase {
+    pub op: LOp,
+    /// day number (may be outside the range by a few days)
+    pub day: i64,
+    /// ns of day
+    pub ns: i128,
+    /// fixed offset in minutes for the zoned ops / string offsets
+    pub off_min: i32,
+}
+pub struct LimitSub;
+
+fn in_range_date(day: i64) -> bool {
+    date_in_range(day)
 }
 
-pub fn replay(_ctx: &mut Ctx, _sub: &str, _case: &Value) -> bool {
-    false
+fn check_date_fields(o: &mut Outcome, p: &PlainDate, what: &str) {
+    let y = p.iso_year() as i64;
+    let ok = valid_ymd(y, p.iso_month() as i64, p.iso_day() as i64) && date_in_range(to_days(y, p.iso_month().clamp(1, 12), p.iso_day().clamp(1, 28)));
+    if !o.failed() && !(ok && date_in_range(ymd_of(p).n())) {
+        *o = std::mem::take(o).fail(format!("C02/limit/{what}/returned-malformed-or-out-of-range"), "valid date in range", format!("{:?}", ymd_of(p)));
+    }
+}
+
+impl SubCheck for LimitSub {
+    type Case = LimitCase;
+    fn name(&self) -> &'static str {
+        "limits"
+    }
+    fn eval(&self, c: &LimitCase) -> Outcome {
+        let ymd = Ymd::from_n(c.day);
+        let (y, m, d) = (ymd.y as i32, ymd.m, ymd.d);
+        let (h, mi, s, ms, us, nn) = split_ns(c.ns);
+        let near = |n: i64| (n - MIN_DAY).abs() <= 3 || (n - MAX_DAY).abs() <= 3;
+        let mut o = Outcome::pass().nontrivial(near(c.day)).class(match c.op {
+            LOp::DateTryNew | LOp::DateNew | LOp::DateFromStr => "date",
+            LOp::DateTimeTryNew | LOp::DateToDateTime | LOp::FromDateAndTime | LOp::DateTimeFromStr => "date-time",
+            LOp::YearMonthNew | LOp::DateToYearMonth | LOp::YearMonthFromStr => "year-month",
+            LOp::InstantTryNew | LOp::InstantFromMs | LOp::InstantFromStr => "instant",
+            _ => "zoned",
+        });
+        let dt_ok = datetime_in_range(c.day, c.ns);
+        let abs = c.day as i128 * DAY + c.ns;
+        let off_ns = c.off_min as i128 * 60_000_000_000;
+        macro_rules! verdict {
+            ($what:expr, $want_ok:expr, $got:expr, $show:expr) => {
+                match (&$got, $want_ok) {
+                    (Ok(_), true) => {}
+                    (Err(e), false) => chk!(o, e.kind() == ErrorKind::Range, format!("C02/limit/{}/error-kind", $what), "Range", err_str(e)),
+                    (Ok(v), false) => o = o.fail(format!("C02/limit/{}/accepted-out-of-range", $what), "RangeError", $show(v)),
+                    (Err(e), true) => o = o.fail(format!("C02/limit/{}/rejected-in-range", $what), "Ok", err_str(e)),
+                }
+            };
+        }
+        match c.op {
+            LOp::DateTryNew | LOp::DateNew => {
+                let r = if c.op == LOp::DateTryNew { PlainDate::try_new(y, m, d, iso()) } else { PlainDate::new(y, m, d, iso()) };
+                verdict!("PlainDate::new", in_range_date(c.day), r, |v: &PlainDate| format!("{:?}", ymd_of(v)));
+                if let Ok(p) = &r {
+                    chk!(o, ymd_of(p) == ymd, "C02/limit/PlainDate::new/value", ymd, ymd_of(p));
+                    check_date_fields(&mut o, p, "PlainDate::new");
+                }
+            }
+            LOp::DateTimeTryNew => {
+                let r = PlainDateTime::try_new(y, m, d, h, mi, s, ms, us, nn, iso());
+                verdict!("PlainDateTime::try_new", dt_ok, r, |v: &PlainDateTime| format!("{:?}", dt_of(v)));
+                if let Ok(p) = &r {
+                    chk!(o, dt_of(p) == Dt { day: c.day, ns: c.ns }, "C02/limit/PlainDateTime::try_new/value", (c.day, c.ns), dt_of(p));
+                }
+            }
+            LOp::DateToDateTime | LOp::FromDateAndTime => {
+                if !in_range_date(c.day) {
+                    return o;
+                }
+                let date = plain_date(ymd).expect("in range");
+                let time = plain_time(c.ns).expect("time");
+                let r = if c.op == LOp::DateToDateTime { date.to_plain_date_time(Some(time)) } else { PlainDateTime::from_date_and_time(date, time) };
+                verdict!("date+time", dt_ok, r, |v: &PlainDateTime| format!("{:?}", dt_of(v)));
+                // the infallible conversion From<PlainDate> must not produce an out-of-range date-time either
+                if c.op == LOp::DateToDateTime {
+                    let p: PlainDateTime = PlainDateTime::from(plain_date(ymd).unwrap());
+                    let x = dt_of(&p);
+                    if !x.in_range() {
+                        o = o.fail("C02/limit/From<PlainDate>-for-PlainDateTime/out-of-range-value", "a date-time inside the limits (or no infallible conversion)", format!("{x:?}"));
+                    }
+                }
+            }
+            LOp::YearMonthNew => {
+                let r = PlainYearMonth::new_with_overflow(y, m, None, iso(), ArithmeticOverflow::Reject);
+                verdict!("PlainYearMonth::new", ym_in_range(ymd.y, m), r, |v: &PlainYearMonth| format!("{}-{}", v.iso_year(), v.iso_month()));
+            }
+            LOp::DateToYearMonth => {
+                if !in_range_date(c.day) {
+                    return o;
+                }
+                let r = plain_date(ymd).unwrap().to_plain_year_month();
+                verdict!("to_plain_year_month", ym_in_range(ymd.y, m), r, |v: &PlainYearMonth| format!("{}-{}", v.iso_year(), v.iso_month()));
+            }
+            LOp::InstantTryNew => {
+                let r = Instant::try_new(abs);
+                verdict!("Instant::try_new", instant_in_range(abs), r, |v: &Instant| v.as_i128().to_string());
+            }
+            LOp::InstantFromMs => {
+                let msv = abs.div_euclid(1_000_000);
+                let r = Instant::from_epoch_milliseconds(msv as i64);
+                verdict!("Instant::from_epoch_milliseconds", instant_in_range(msv * 1_000_000), r, |v: &Instant| v.as_i128().to_string());
+            }
+            LOp::ZonedTryNew => {
+                let tz = TimeZone::try_from_identifier_str(&fmt::offset_minutes(c.off_min as i64)).unwrap();
+                let r = ZonedDateTime::try_new(abs, iso(), tz);
+                verdict!("ZonedDateTime::try_new", instant_in_range(abs), r, |v: &ZonedDateTime| v.epoch_nanoseconds().as_i128().to_string());
+                if let Ok(z) = &r {
+                    // wall-clock reading: either a well-formed date-time or an error, never garbage
+                    let prov = TableProvider::utc_only();
+                    let wall = abs + off_ns;
+                    let (wd, wn) = (wall.div_euclid(DAY) as i64, wall.rem_euclid(DAY));
+                    match z.to_plain_datetime_with_provider(&prov) {
+                        Ok(p) => chk!(o, dt_of(&p) == Dt { day: wd, ns: wn }, "C02/limit/zoned-wall/value", (wd, wn), dt_of(&p)),
+                        Err(e) => chk!(o, e.kind() == ErrorKind::Range, "C02/limit/zoned-wall/error-kind", "Range", err_str(&e)),
+                    }
+                }
+            }
+            LOp::DateToZoned | LOp::DateTimeToZoned => {
+                if !in_range_date(c.day) {
+                    return o;
+                }
+                let tz = TimeZone::try_from_identifier_str(&fmt::offset_minutes(c.off_min as i64)).unwrap();
+                let prov = TableProvider::utc_only();
+                let want = abs - off_ns;
+                let want_ok = dt_ok && instant_in_range(want);
+                let r = if c.op == LOp::DateToZoned {
+                    plain_date(ymd).unwrap().to_zoned_date_time_with_provider(tz, Some(plain_time(c.ns).unwrap()), &prov)
+                } else {
+                    match plain_datetime(Dt { day: c.day, ns: c.ns }) {
+                        Ok(p) => p.to_zoned_date_time_with_provider(&tz, Disambiguation::Compatible, &prov),
+                        Err(_) => return o,
+                    }
+                };
+                verdict!("to_zoned_date_time", want_ok, r, |v: &ZonedDateTime| v.epoch_nanoseconds().as_i128().to_string());
+                if let Ok(z) = &r {
+                    chk!(o, z.epoch_nanoseconds().as_i128() == want, "C02/limit/to_zoned_date_time/value", want, z.epoch_nanoseconds().as_i128());
+                }
+            }
+            LOp::DateFromStr => {
+                let s_ = fmt::date(ymd.y, m, d);
+                let r = PlainDate::from_str(&s_);
+                verdict!("PlainDate::from_str", in_range_date(c.day), r, |v: &PlainDate| format!("{:?}", ymd_of(v)));
+            }
+            LOp::DateTimeFromStr => {
+                let s_ = fmt::datetime(c.day, c.ns, Prec::Auto);
+                let r = PlainDateTime::from_str(&s_);
+                verdict!("PlainDateTime::from_str", dt_ok, r, |v: &PlainDateTime| format!("{:?}", dt_of(v)));
+                if let Ok(p) = &r {
+                    chk!(o, dt_of(p) == Dt { day: c.day, ns: c.ns }, "C02/limit/PlainDateTime::from_str/value", (c.day, c.ns), dt_of(p));
+                }
+            }
+            LOp::InstantFromStr => {
+                // local date-time + offset; the instant is local - offset
+                let s_ = format!("{}{}", fmt::datetime(c.day, c.ns, Prec::Auto), fmt::offset_minutes(c.off_min as i64));
+                let want = abs - off_ns;
+                let r = Instant::from_str(&s_);
+                verdict!("Instant::from_str", instant_in_range(want), r, |v: &Instant| v.as_i128().to_string());
+                if let Ok(i) = &r {
+                    chk!(o, i.as_i128() == want, "C02/limit/Instant::from_str/value", want, i.as_i128());
+                }
+            }
+            LOp::YearMonthFromStr => {
+                let s_ = format!("{}-{:02}", fmt::year(ymd.y), m);
+                let r = PlainYearMonth::from_str(&s_);
+                verdict!("PlainYearMonth::from_str", ym_in_range(ymd.y, m), r, |v: &PlainYearMonth| format!("{}-{}", v.iso_year(), v.iso_month()));
+            }
+            LOp::ZonedFromStr => {
+                let off = fmt::offset_minutes(c.off_min as i64);
+                let s_ = format!("{}{}[{}]", fmt::datetime(c.day, c.ns, Prec::Auto), off, off);
+                let want = abs - off_ns;
+                let prov = TableProvider::utc_only();
+                let r = ZonedDateTime::from_str_with_provider(&s_, Disambiguation::Compatible, temporal_rs::options::OffsetDisambiguation::Reject, &prov);
+                // the wall date must be a valid date in range for the string to be accepted at all
+                // InterpretISODateTimeOffset performs CheckISODaysRange on the wall date: |epoch day| <= 1e8
+                let want_ok = instant_in_range(want) && in_range_date(c.day) && c.day.abs() <= 100_000_000;
+                verdict!("ZonedDateTime::from_str", want_ok, r, |v: &ZonedDateTime| v.epoch_nanoseconds().as_i128().to_string());
+                if let Ok(z) = &r {
+                    chk!(o, z.epoch_nanoseconds().as_i128() == want, "C02/limit/ZonedDateTime::from_str/value", want, z.epoch_nanoseconds().as_i128());
+                }
+            }
+        }
+        o
+    }
+}
+
+fn limit_cases() -> Vec<LimitCase> {
+    let mut v = vec![];
+    let days: Vec<i64> = (-4..=4).flat_map(|k| [MIN_DAY + k, MAX_DAY + k]).chain([MIN_DAY + 30, MAX_DAY - 30, 0, -1]).collect();
+    let nss: Vec<i128> = vec![0, 1, 999, 1_000_000, DAY / 2, DAY - 1, DAY - 1000, 3_600_000_000_000, DAY - 3_600_000_000_000];
+    let offs: Vec<i32> = vec![0, 1, -1, 60, -60, 330, 840, -720, 1439, -1439];
+    for &op in LOPS.iter() {
+        for &day in &days {
+            for &ns in &nss {
+                let needs_off = matches!(op, LOp::ZonedTryNew | LOp::DateToZoned | LOp::DateTimeToZoned | LOp::InstantFromStr | LOp::ZonedFromStr);
+                if needs_off {
+                    for &off_min in &offs {
+                        v.push(LimitCase { op, day, ns, off_min });
+                    }
+                } else {
+                    v.push(LimitCase { op, day, ns, off_min: 0 });
+                }
+            }
+        }
+    }
+    v
+}
+
+// ------------------------------------------------------------------------------------------
+// boundary generators for the reused exact-oracle sub-checks
+
+/// a target day within 3 days of a limit (either side of it) or far beyond
+fn target_day() -> BoxedStrategy<i64> {
+    prop_oneof![
+        4 => (-3i64..=3).prop_map(|k| MIN_DAY + k),
+        4 => (-3i64..=3).prop_map(|k| MAX_DAY + k),
+        1 => (MAX_DAY + 4..=MAX_DAY + 40_000i64),
+        1 => (MIN_DAY - 40_000i64..=MIN_DAY - 4),
+        1 => prop_oneof![Just(MAX_DAY + 800_000_000i64), Just(MIN_DAY - 800_000_000i64), Just(2_147_483_648i64 - 5), Just(-2_147_483_648i64 + 5)],
+    ]
+    .boxed()
+}
+
+/// duration that moves `a` to (about) day `t`: pure days, or years/months/weeks/days with the remainder in days
+fn dur_towards(a: i64, t: i64, shape: u8) -> Dur {
+    let mut f = [0i128; 10];
+    let tc = t.clamp(MIN_DAY, MAX_DAY);
+    match shape % 4 {
+        0 => f[3] = (t - a) as i128,
+        1 => {
+            let (y, mo, w, d) = date_diff(Ymd::from_n(a), Ymd::from_n(tc), U::Year);
+            f[0] = y as i128;
+            f[1] = mo as i128;
+            f[2] = w as i128;
+            f[3] = d as i128 + (t - tc) as i128;
+        }
+        2 => {
+            let (y, mo, w, d) = date_diff(Ymd::from_n(a), Ymd::from_n(tc), U::Month);
+            f[0] = y as i128;
+            f[1] = mo as i128;
+            f[2] = w as i128;
+            f[3] = d as i128 + (t - tc) as i128;
+        }
+        _ => {
+            let (y, mo, w, d) = date_diff(Ymd::from_n(a), Ymd::from_n(tc), U::Week);
+            f[0] = y as i128;
+            f[1] = mo as i128;
+            f[2] = w as i128;
+            f[3] = d as i128 + (t - tc) as i128;
+        }
+    }
+    // keep the sign uniform (mixed signs can appear when t is beyond the clamp on the other side)
+    let s = f.iter().find(|v| **v != 0).map(|v| v.signum()).unwrap_or(1);
+    if f.iter().any(|v| *v != 0 && v.signum() != s) {
+        f = [0; 10];
+        f[3] = (t - a) as i128;
+    }
+    Dur { f }
+}
+
+fn date_add_boundary() -> BoxedStrategy<c04::AddCase> {
+    (gen::day(), target_day(), 0u8..4, prop::bool::ANY, prop::bool::weighted(0.2))
+        .prop_map(|(a, t, shape, reject, subtract)| {
+            let d = dur_towards(a, t, shape);
+            let dur = if subtract { d.negated() } else { d };
+            c04::AddCase { day: a, dur, reject, subtract }
+        })
+        .prop_filter("valid duration", |c| c.dur.valid())
+        .boxed()
+}
+
+fn datetime_add_boundary() -> BoxedStrategy<c05::AddCase> {
+    (gen::datetime(), target_day(), 0u8..4, gen::ns_of_day(), prop::bool::ANY, prop::bool::weighted(0.2), 0u8..3)
+        .prop_map(|((a, ans), t, shape, tns, reject, subtract, tk)| {
+            let mut d = dur_towards(a, t, shape);
+            // time part so that the result's time of day is tns (crossing midnight or not), or none
+            let s = d.sign();
+            match tk {
+                0 => {}
+                _ => {
+                    let mut delta = tns - ans;
+                    if s < 0 && delta > 0 {
+                        delta -= DAY;
+                    }
+                    if s > 0 && delta < 0 {
+                        delta += DAY;
+                    }
+                    if s == 0 || delta.signum() as i32 == s || delta == 0 {
+                        d.f[9] = gen::through_f64(delta);
+                    }
+                }
+            }
+            let dur = if subtract { d.negated() } else { d };
+            c05::AddCase { day: a, ns: ans, dur, reject, subtract }
+        })
+        .prop_filter("valid duration", |c| c.dur.valid())
+        .boxed()
+}
+
+/// date-time rounding on the last/first representable day
+fn datetime_round_boundary() -> BoxedStrategy<c07::PubCase> {
+    (c07::dt_round_case(), prop_oneof![Just(MAX_DAY), Just(MIN_DAY), Just(MIN_DAY + 1), Just(MAX_DAY - 1)], 0i128..3_600_000_000_000i128, prop::bool::ANY)
+        .prop_map(|(mut c, day, back, string)| {
+            c.a_day = day;
+            c.a = if day >= MAX_DAY - 1 { DAY - 1 - back } else { c.a };
+            if string {
+                c.op = c07::Op::DateTimeString;
+                c.digits = Some((back % 10) as u8);
+            }
+            c
+        })
+        .prop_filter("in range", |c| datetime_in_range(c.a_day, c.a))
+        .boxed()
+}
+
+pub fn run(ctx: &mut Ctx) {
+    ctx.rule = "limits: complete grid of {17 constructor / conversion / parser operations} x {days within 4 of both ends of the date range, +-30, epoch} x {9 times of day incl. 00:00, 1 ns, 23:59:59.999999999} x {10 fixed offsets where a zone is involved}: Ok iff the exact value is representable (value compared), RangeError otherwise; boundary runs of the exact-oracle sub-checks: PlainDate add/subtract and PlainDateTime add/subtract with durations steered to land within 3 days of either limit (both sides) or far beyond (shapes: pure days, years+months+days, months+days, weeks+days, with a time part crossing midnight), PlainDateTime round/toString on the first and last representable days, Instant/PlainTime arithmetic of C06 (a quarter steered to within 2 ns of the instant limits), Duration construction at the field and 2^53 s limits (C09). Every sub-check also verifies that successful results are well-formed through the value's own getters. The whole property runs in the checked profile (overflow checks, debug assertions) and again in the release profile (wrapping arithmetic): a case passes only if it passes in both. non-trivial = exact result within a few units of a boundary or beyond it.".into();
+    ctx.assumptions = vec!["Duration::from_day_and_time is documented as an unvalidated constructor (returns Self, not a Result) and is not judged here".into()];
+    let t = ctx.tier;
+    let cases = limit_cases();
+    let n = cases.len() as u64;
+    ctx.run_enum(&LimitSub, n, &|i| cases[i as usize].clone(), true);
+    ctx.run_prop(&c04::AddSub, &date_add_boundary, t.pick(300_000, 10_000_000));
+    ctx.run_prop(&c05::AddSub, &datetime_add_boundary, t.pick(300_000, 10_000_000));
+    ctx.run_prop(&c07::PubSub, &datetime_round_boundary, t.pick(100_000, 3_000_000));
+    ctx.run_prop(&c06::Sub, &c06::case, t.pick(300_000, 10_000_000));
+    ctx.run_prop(&c09::NewSub, &c09::new_case, t.pick(200_000, 6_000_000));
+    ctx.run_release_profile();
+}
+
+pub fn replay(ctx: &mut Ctx, sub: &str, case: &Value) -> bool {
+    match sub {
+        "limits" => ctx.replay_case(&LimitSub, case),
+        "add" => {
+            // both C04's and C05's add sub-checks are named "add": the date-time case has an `ns` field
+            if case.get("ns").is_some() {
+                ctx.replay_case(&c05::AddSub, case)
+            } else {
+                ctx.replay_case(&c04::AddSub, case)
+            }
+        }
+        "public" => ctx.replay_case(&c07::PubSub, case),
+        "ops" => ctx.replay_case(&c06::Sub, case),
+        "new" => ctx.replay_case(&c09::NewSub, case),
+        _ => false,
+    }
 }
